@@ -1,7 +1,8 @@
 (* LayoutDecls.v -- the declarations of /repo/src/lib.rs that determine the memory
    layout of GenericArray<T, N>, as plain data (repr attribute + ordered field
-   list).  This file is meant to be REPLACED by the output of the translator
-   (ga2coq, tier T1); until then it is the hand transcription of
+   list).  The definitions are REGENERATED from the source on every run by the translator
+   (tools/ga2coq, tier T1) into coq/gen/GenLayoutDecls.v and re-exported here; they are
+   the translation of
 
      #[repr(C)] pub struct GenericArrayImplEven<T, U> { parent1: U, parent2: U, _marker: PhantomData<T> }
      #[repr(C)] pub struct GenericArrayImplOdd<T, U>  { parent1: U, parent2: U, data: T }
@@ -12,24 +13,5 @@
 
    Parameter numbering: structs <T, U> = (0, 1); in the ArrayType right-hand sides
    0 = T, 1 = N::ArrayType<T>; in GenericArray 0 = T, 1 = N::ArrayType<T>. *)
-From GA Require Import Base Layout.
-Local Open Scope Z_scope.
-
-Definition impl_even : decl :=
-  {| d_repr := ReprC; d_fields := [XParam 1; XParam 1; XPhantom (XParam 0)] |}.
-
-Definition impl_odd : decl :=
-  {| d_repr := ReprC; d_fields := [XParam 1; XParam 1; XParam 0] |}.
-
-Definition arr_uterm : texp := XArr (XParam 0) 0.
-
-Definition arr_b0 : struct_name * list texp := (SEven, [XParam 0; XParam 1]).
-
-Definition arr_b1 : struct_name * list texp := (SOdd, [XParam 0; XParam 1]).
-
-Definition generic_array_decl : decl :=
-  {| d_repr := ReprTransparent; d_fields := [XParam 1] |}.
-
-Definition crate_decls : decls :=
-  {| dc_even := impl_even; dc_odd := impl_odd; dc_uterm := arr_uterm;
-     dc_b0 := arr_b0; dc_b1 := arr_b1; dc_ga := generic_array_decl |}.
+From GA Require Export Layout.
+From GAGen Require Export GenLayoutDecls.
